@@ -478,6 +478,10 @@ def gen_tol(ctx, kind, combo, gf=False):
             off = 0.5 * box / gmax
         elif r < 0.6:
             off = float(rng.uniform(0, 0.5 * box / gmax))
+        elif r < 0.8 and kind == 'tsc' and not gf and min(shape[:2] if shape[2] == 1 else shape) >= 2:
+            # negative sub-cell offsets: grid coordinates down to -3/4 of a cell on the finest axis (rounded index -1,
+            # left neighbour -2 -> the last two rows); a directed -3/4 cell and a random one
+            off = -0.75 * box / gmax if r < 0.7 else -float(rng.uniform(0, 0.75 * box / gmax))
     w = None if wdt is None else [float(NPDT[wdt](v)) for v in rng.uniform(0, 2, n)]
     grid0 = None
     if not gf and rng.random() < 0.25:
